@@ -106,6 +106,17 @@ def build(ctx, case, db):
     for i in range(0, len(items), 6):
         prog.append(" %d PUNCH %s" % (ln, ", ".join(items[i:i + 6])))
         ln += 10
+    if model in ("donnan", "donnan_debye", "diffuse_layer", "counter_only"):
+        # what the explicit layer holds, species by species (EDL_SPECIES): its charge must cancel the surface charge
+        NDL = 45
+        heads.append("dl_n")
+        prog.append(' %d ndl = 0 : tdl = EDL_SPECIES("Hfo", ndl, dln$, dlm, dla, dlt)' % ln)
+        prog.append(" %d PUNCH ndl" % (ln + 10))
+        ln += 20
+        for i in range(1, NDL + 1):
+            heads += ["dl_name%d" % i, "dl_mol%d" % i]
+            prog.append(' %d IF (%d <= ndl) THEN PUNCH dln$(%d), dlm(%d) ELSE PUNCH "-", 0' % (ln, i, i, i))
+            ln += 10
     sel = "SELECTED_OUTPUT 1\n -reset false\n -state true\nUSER_PUNCH 1\n -headings %s\n -start\n%s\n -end\n" % (" ".join(heads), "\n".join(prog))
     text = "KNOBS\n -convergence_tolerance 1e-12\n -iterations 400\n" + sel + sol + s_ + "SAVE surface 1\nEND\n" + react
     info = dict(model=model, sites=sites, area=area, mass=float(f(mass)), cap=cap, susp=susp, ph=ph, ionic=ionic, temp=temp, sorb=sorb)
@@ -225,6 +236,19 @@ def run_case(ctx, case):
         if model == "cd_music":
             sigs.add("cd_music|sites%d" % len(info["sites"]))
             continue
+        # (4b) explicit diffuse layer, from the species it is reported to hold: sum z n = - surface charge
+        ndl = d.get("dl_n")
+        if ndl is not None and 0 < ndl <= 45 and d.get("charge") is not None and abs(d["charge"]) > 1e-12:
+            qdl = 0.0
+            for i in range(1, int(ndl) + 1):
+                nm_, m_ = d.get("dl_name%d" % i), d.get("dl_mol%d" % i)
+                if isinstance(nm_, str) and nm_ != "-" and m_ is not None:
+                    qdl += dbparse.charge_of(nm_)[1] * m_
+            nchk += 1
+            sigs.add("%s|layer-species-charge" % model)
+            if abs(qdl + d["charge"]) > 1e-6 * max(abs(qdl), abs(d["charge"])) + 2e-12:
+                findings.append(("C20/diffuse-layer-species-charge/%s" % model, "%s: surface charge %.10g eq, but the species reported in the diffuse layer carry %.10g eq (sum %.3e; pH %s, I %.3g)" % (
+                    case["id"], d["charge"], qdl, qdl + d["charge"], info["ph"], info["ionic"])))
         # (2) mass action with the electrostatic term
         for sp in info["susp"]:
             rx = db.surface_species[sp]
